@@ -87,6 +87,8 @@ type harnessResult struct {
 	Natives       map[string]int             `json:"native_models,omitempty"`
 	MaxDecisions  int                        `json:"max_decisions_on_a_path"`
 	Truncated     bool                       `json:"truncated,omitempty"`
+	CrossChecks   int                        `json:"cross_checked_obligations,omitempty"`
+	CrossUnknown  int                        `json:"cross_check_unknown,omitempty"`
 	ExpectReach   []string                   `json:"expected_reach,omitempty"`
 }
 
@@ -106,7 +108,15 @@ func assertPC(t *Term) {
 	}
 	px.pc = append(px.pc, t)
 	solver.Assert(t)
+	if solver2 != nil {
+		solver2.Assert(t)
+	}
 }
+
+// solver2, when set (thorough tier), mirrors the path condition into a second, different solver;
+// every obligation decided by the primary is asked there too and the two verdicts must agree.
+var solver2 *Solver
+var crossChecks, crossUnknown int
 
 func recordDecision(d decision) {
 	px.trace = append(px.trace, d)
@@ -304,6 +314,19 @@ func assertProp(c *Term, tag string) {
 	}
 	if r == resUnknown {
 		r = portfolioCheck(c)
+	} else if solver2 != nil {
+		var r2 satResult
+		if c.isFalse() {
+			r2 = solver2.Check()
+		} else {
+			r2 = solver2.Check(mkNot(c))
+		}
+		crossChecks++
+		if r2 == resUnknown {
+			crossUnknown++
+		} else if r2 != r {
+			panic(engineErr(fmt.Sprintf("solver disagreement on obligation %q: %s says %s, %s says %s", tag, solver.name, r, solver2.name, r2)))
+		}
 	}
 	switch r {
 	case resUnsat:
@@ -367,6 +390,9 @@ type pathOutcome struct {
 
 func runPath(i *interpreter, fn value, prefix []decision) (out pathOutcome) {
 	solver.Push()
+	if solver2 != nil {
+		solver2.Push()
+	}
 	journalOn = true
 	px = &pathCtx{prefix: prefix, inputIx: map[string]int{}, decided: map[int]bool{}}
 	i.spawned = nil
@@ -376,6 +402,9 @@ func runPath(i *interpreter, fn value, prefix []decision) (out pathOutcome) {
 		journalOn = false
 		rollback()
 		solver.Pop()
+		if solver2 != nil {
+			solver2.Pop()
+		}
 	}()
 	func() {
 		defer func() {
